@@ -487,6 +487,16 @@ func (s *SMSValidator) validateCode(w http.ResponseWriter, r *http.Request, user
 
 		logger.Infof("user %s disabled sms 2fa", user.GetPID())
 	case PageSMSValidate:
+		// The second factor completes a login: give the modules that guard
+		// logins (lock, confirm) the same chance to stop it that the first
+		// step gave them, the account may have been locked in between.
+		r = r.WithContext(context.WithValue(r.Context(), authboss.CTXKeyUser, user))
+		if handled, err := s.Authboss.Events.FireBefore(authboss.EventAuth, w, r); err != nil {
+			return err
+		} else if handled {
+			return nil
+		}
+
 		authboss.PutSession(w, authboss.SessionKey, user.GetPID())
 		authboss.PutSession(w, authboss.Session2FA, "sms")
 
